@@ -1475,6 +1475,85 @@ impl<R: Read> Read for Base64Decoder<R> {
     }
 }
 
+/// Verification hooks: access to the private incremental tokeniser and to the
+/// production automata (feature `verif-hooks`)
+#[cfg(feature = "verif-hooks")]
+pub mod verif {
+    use super::*;
+
+    #[derive(Debug)]
+    struct PatternMatcher {
+        nfa: NFA<usize>,
+    }
+
+    impl Matcher for PatternMatcher {
+        type Item = usize;
+
+        fn matcher(&self) -> Either<NFA<Void>, NFA<Self::Item>> {
+            Either::Right(self.nfa.clone())
+        }
+
+        fn decode(&self, _data: &[u8]) -> Option<Self::Item> {
+            None
+        }
+    }
+
+    /// Incremental tokeniser (the decoder core) over caller supplied NFAs, stop
+    /// states of which must be tagged with the pattern identifier.
+    pub struct Tokenizer {
+        decoder: MatcherDecoder<usize>,
+    }
+
+    impl Tokenizer {
+        pub fn new(patterns: impl IntoIterator<Item = NFA<usize>>) -> Self {
+            let matchers = patterns
+                .into_iter()
+                .map(|nfa| Box::new(PatternMatcher { nfa }) as Box<dyn Matcher<Item = usize>>);
+            Self {
+                decoder: MatcherDecoder::new(MatcherAutomata::new(matchers)),
+            }
+        }
+
+        /// Feed one read, returns tokens completed by it (`Err` is unrecognised input)
+        pub fn feed(&mut self, chunk: &[u8]) -> Vec<Result<usize, Vec<u8>>> {
+            let mut out = Vec::new();
+            let mut cursor = std::io::Cursor::new(chunk);
+            while let Ok(Some(item)) = self.decoder.decode(&mut cursor) {
+                out.push(item.map_err(|raw| raw.into_vec()));
+            }
+            out
+        }
+    }
+
+    fn dfa_trace<T>(automata: &MatcherAutomata<T>, input: &[u8]) -> Vec<(bool, bool, bool)> {
+        let dfa = &automata.automata;
+        let mut state = Some(dfa.start());
+        input
+            .iter()
+            .map(|byte| {
+                state = state.and_then(|state| dfa.transition(state, *byte));
+                match state {
+                    None => (false, false, false),
+                    Some(state) => {
+                        let info = dfa.info(state);
+                        (true, info.is_accepting, info.is_terminal)
+                    }
+                }
+            })
+            .collect()
+    }
+
+    /// Per-prefix `(alive, accepting, terminal)` of the production event automaton
+    pub fn event_dfa_trace(input: &[u8]) -> Vec<(bool, bool, bool)> {
+        dfa_trace(&TTY_EVENT_AUTOMATA, input)
+    }
+
+    /// Per-prefix `(alive, accepting, terminal)` of the production command automaton
+    pub fn command_dfa_trace(input: &[u8]) -> Vec<(bool, bool, bool)> {
+        dfa_trace(&TTY_COMMAND_AUTOMATA, input)
+    }
+}
+
 #[cfg(test)]
 mod tests {
     use crate::{common::Rnd, encoder::Base64Encoder};
